@@ -33,13 +33,14 @@ def run(ctx):
     mcs = M.design(ctx, cfgs, workers)
     rev_case = M.reverse_counterexample(ctx, workers)
     ctx.log("MountPlan_rev.cfg: counterexample history %s" % json.dumps(rev_case["updates"]))
-    sim_cases, sim_pred = M.simulate_histories(ctx, ctx.pick(60, 600), ctx.seed)
+    sim_cases, sim_pred = M.simulate_histories(ctx, ctx.pick(40, 600), ctx.seed)
 
     # ---- 2. conformance: real planner / real update loop ---------------------------------------------
     binary = M.build_driver(ctx)
     ctx.log("driver built")
     summ = M.run_driver(ctx, binary, "real", {"VERIF_ENUM_K": 2, "VERIF_ENUM3_POOL": ctx.pick(0, 8),
-                                              "VERIF_N": ctx.pick(700, 15000), "VERIF_CHUNK": ctx.pick(1200, 4000)})
+                                              "VERIF_ENUM_RELATED": ctx.pick(1, 0),
+                                              "VERIF_N": ctx.pick(400, 15000), "VERIF_CHUNK": ctx.pick(1000, 4000)})
     ctx.log("real histories: %s" % {k: v for k, v in summ.items() if k != "files"})
     # T->I: TLC's counterexample and simulated behaviours, replayed on the real code
     rp = os.path.join(ctx.subdir("replay_in"), "cases.json")
